@@ -137,6 +137,8 @@ pub enum Case {
     /// sibling: another accessor of the same view and value type, called first with vals[0] (two fields then hold the same value)
     Set { row: usize, prior: Prior, vals: Vec<Val>, sibling: Option<usize> },
     Getter { which: usize, a: Vec<String>, b: Vec<String>, flag: u8 },
+    /// every relationship-valued getter of the typed views, applied to parsed text holding this field (with substitution variables)
+    RelGetters { model: crate::gen::rel::RelField, text: String },
 }
 
 fn alt_names(row: &rows::Row) -> Vec<&'static str> {
@@ -422,6 +424,83 @@ fn check_set(ri: usize, prior: &Prior, vals: &[Val], sibling: Option<usize>) -> 
 // ------------------------------------------------------------------------------------------
 // getter-only checks on parsed raw text (the documented reading of the raw field)
 
+/// Relationship-valued getters on parsed text: each must return the written entries and substitution variables.
+fn check_rel_getters(model: &crate::gen::rel::RelField, raw: &str) -> CheckResult {
+    use debian_control::lossless as ll;
+    // continuation lines of the raw field, indented
+    let val = raw.split('\n').map(|l| l.trim_matches(|c| c == ' ' || c == '\t')).filter(|l| !l.is_empty()).collect::<Vec<_>>().join("\n ");
+    let want_e = model.entries();
+    let want_s = model.substvars();
+    let verify = |what: &str, got: Option<Relations>| -> CheckResult {
+        let r = match got {
+            Some(r) => r,
+            None => return fail("getter/relations", format!("{} returns None for the field value {:?}", what, val)),
+        };
+        let e = crate::props::c10::lossless_entries(&r)?;
+        ensure!(crate::props::c10::same_entries(&e, &want_e), "getter/relations", "{} on {:?}: entries {:?}, written {:?}", what, val, e, want_e);
+        ensure_eq!(r.substvars().collect::<Vec<_>>(), want_s, "getter/relations", "{} on {:?}: substitution variables", what, val);
+        Ok(())
+    };
+    let src_fields = ["Build-Depends", "Build-Depends-Indep", "Build-Depends-Arch", "Build-Conflicts", "Build-Conflicts-Indep", "Build-Conflicts-Arch"];
+    let bin_fields = ["Depends", "Recommends", "Suggests", "Enhances", "Pre-Depends", "Breaks", "Conflicts", "Replaces", "Provides", "Built-Using"];
+    let mut text = String::from("Source: x\n");
+    for f in src_fields {
+        text.push_str(&format!("{}: {}\n", f, val));
+    }
+    text.push_str("\nPackage: y\n");
+    for f in bin_fields {
+        text.push_str(&format!("{}: {}\n", f, val));
+    }
+    let c = ll::Control::from_str(&text).map_err(|e| Failure { assertion: "infra/getter".into(), message: format!("{:?}: {:?}", text, e.to_string()) })?;
+    let s = c.source().ok_or_else(|| Failure { assertion: "control-source-found".into(), message: "no source".into() })?;
+    verify("control Source::build_depends", s.build_depends())?;
+    verify("control Source::build_depends_indep", s.build_depends_indep())?;
+    verify("control Source::build_depends_arch", s.build_depends_arch())?;
+    verify("control Source::build_conflicts", s.build_conflicts())?;
+    verify("control Source::build_conflicts_indep", s.build_conflicts_indep())?;
+    verify("control Source::build_conflicts_arch", s.build_conflicts_arch())?;
+    let b = c.binaries().next().ok_or_else(|| Failure { assertion: "control-binary-found".into(), message: "no binary".into() })?;
+    verify("control Binary::depends", b.depends())?;
+    verify("control Binary::recommends", b.recommends())?;
+    verify("control Binary::suggests", b.suggests())?;
+    verify("control Binary::enhances", b.enhances())?;
+    verify("control Binary::pre_depends", b.pre_depends())?;
+    verify("control Binary::breaks", b.breaks())?;
+    verify("control Binary::conflicts", b.conflicts())?;
+    verify("control Binary::replaces", b.replaces())?;
+    verify("control Binary::provides", b.provides())?;
+    verify("control Binary::built_using", b.built_using())?;
+    // apt Sources / Packages stanzas and buildinfo
+    let mut st = String::from("Package: x\n");
+    for f in src_fields {
+        st.push_str(&format!("{}: {}\n", f, val));
+    }
+    let a = ll::apt::Source::from_str(&st).map_err(|e| Failure { assertion: "infra/getter".into(), message: e.to_string() })?;
+    verify("apt Source::build_depends", a.build_depends())?;
+    verify("apt Source::build_depends_indep", a.build_depends_indep())?;
+    verify("apt Source::build_depends_arch", a.build_depends_arch())?;
+    verify("apt Source::build_conflicts", a.build_conflicts())?;
+    verify("apt Source::build_conflicts_indep", a.build_conflicts_indep())?;
+    verify("apt Source::build_conflicts_arch", a.build_conflicts_arch())?;
+    let mut pt = String::from("Package: x\n");
+    for f in &bin_fields[..9] {
+        pt.push_str(&format!("{}: {}\n", f, val));
+    }
+    let p = ll::apt::Package::from_str(&pt).map_err(|e| Failure { assertion: "infra/getter".into(), message: e.to_string() })?;
+    verify("apt Package::depends", p.depends())?;
+    verify("apt Package::recommends", p.recommends())?;
+    verify("apt Package::suggests", p.suggests())?;
+    verify("apt Package::enhances", p.enhances())?;
+    verify("apt Package::pre_depends", p.pre_depends())?;
+    verify("apt Package::breaks", p.breaks())?;
+    verify("apt Package::conflicts", p.conflicts())?;
+    verify("apt Package::replaces", p.replaces())?;
+    verify("apt Package::provides", p.provides())?;
+    let bi = ll::buildinfo::Buildinfo::from_str(&format!("Format: 1.0\nSource: x\nInstalled-Build-Depends: {}\n", val)).map_err(|e| Failure { assertion: "infra/getter".into(), message: e.to_string() })?;
+    verify("Buildinfo::installed_build_depends", bi.installed_build_depends())?;
+    Ok(())
+}
+
 const GETTERS: usize = 9;
 
 fn check_getter(which: usize, a: &[String], b: &[String], flag: u8) -> CheckResult {
@@ -487,6 +566,10 @@ fn check_getter(which: usize, a: &[String], b: &[String], flag: u8) -> CheckResu
             let rt = format!("Origin: x\nAcquire-By-Hash: {}\n", word);
             let r = ll::apt::Release::from_str(&rt).unwrap();
             ensure_eq!(r.acquire_by_hash(), yes, "getter/acquire-by-hash", "{:?}", rt);
+            // an absent flag reads as "not set"
+            let r0 = ll::apt::Release::from_str("Origin: x\n").unwrap();
+            ensure_eq!(r0.acquire_by_hash(), false, "getter/acquire-by-hash-absent", "absent field");
+            ensure_eq!(r0.no_support_for_architecture_all(), false, "getter/no-support-for-architecture-all-absent", "absent field");
         }
         4 => {
             // DEP-3: first description line, long description, author fallback, bugs
@@ -727,7 +810,7 @@ impl PropImpl for C15 {
     }
     fn expected_labels(&self) -> Vec<&'static str> {
         let mut v: Vec<&'static str> = ROWS.iter().map(|r| r.label).collect();
-        v.extend(["prior:field-present", "prior:field-absent", "prior:comments-around-field", "prior:fields-before", "prior:fields-after", "prior:second-paragraph", "prior:field-with-the-same-name-in-other-letter-case", "several-setter-calls", "setter-called-twice-with-the-same-value", "consecutive-lists-share-a-prefix", "value:list-longer-than-a-line", "clearing-setter", "sibling-field-holds-the-same-value", "getter:comma-lists", "getter:space-lists", "getter:checksum-triples", "getter:yes-no-flags", "getter:dep3", "getter:control-roles", "getter:changes", "getter:source-vcs", "getter:copyright"]);
+        v.extend(["prior:field-present", "prior:field-absent", "prior:comments-around-field", "prior:fields-before", "prior:fields-after", "prior:second-paragraph", "prior:field-with-the-same-name-in-other-letter-case", "several-setter-calls", "setter-called-twice-with-the-same-value", "consecutive-lists-share-a-prefix", "value:list-longer-than-a-line", "clearing-setter", "sibling-field-holds-the-same-value", "getter:comma-lists", "getter:space-lists", "getter:checksum-triples", "getter:yes-no-flags", "getter:dep3", "getter:control-roles", "getter:changes", "getter:source-vcs", "getter:copyright", "getter:relationship-fields-of-every-view", "getter:relationship-field-with-substitution-variable"]);
         v
     }
     fn budget(&self, tier: Tier) -> Budget {
@@ -758,6 +841,11 @@ impl PropImpl for C15 {
         Case::Set { row, prior, vals: vec![val], sibling: None }
     }
     fn decode(&self, _ctx: &mut Ctx, t: &mut Tape) -> Case {
+        if t.chance(1, 25) {
+            let o = RelOpts { max_layout: Layout::L1, max_items: 4, ..Default::default() };
+            let (model, text, _) = rel::gen_field(t, &o);
+            return Case::RelGetters { model, text };
+        }
         if t.chance(1, 5) {
             let which = t.below(GETTERS);
             let mut a = vec![gen_line(t).replace(',', ";")];
@@ -819,6 +907,11 @@ impl PropImpl for C15 {
                 ctx.label_if(vals.iter().any(|v| v.is_clearing(ROWS[*row].kind)), "clearing-setter");
                 ctx.nontrivial = prior.stale.is_some() || prior.fields_before + prior.fields_after > 0 || prior.comment_before_target || prior.comment_after_target;
             }
+            Case::RelGetters { model, .. } => {
+                ctx.label("getter:relationship-fields-of-every-view");
+                ctx.label_if(model.has_substvar(), "getter:relationship-field-with-substitution-variable");
+                ctx.nontrivial = true;
+            }
             Case::Getter { which, .. } => {
                 ctx.label(["getter:comma-lists", "getter:space-lists", "getter:checksum-triples", "getter:yes-no-flags", "getter:dep3", "getter:control-roles", "getter:changes", "getter:source-vcs", "getter:copyright"][*which]);
                 ctx.nontrivial = true;
@@ -829,6 +922,12 @@ impl PropImpl for C15 {
         match case {
             Case::Set { row, prior, vals, sibling } => check_set(*row, prior, vals, *sibling),
             Case::Getter { which, a, b, flag } => check_getter(*which, a, b, *flag),
+            Case::RelGetters { model, text } => {
+                if model.entries().is_empty() && model.substvars().is_empty() {
+                    return Ok(());
+                }
+                check_rel_getters(model, text)
+            }
         }
     }
     fn render(&self, case: &Case) -> String {
